@@ -136,6 +136,17 @@ func Walk(v *vrt.Ctx) {
 	_, err := pg.Render(ctx, "node", uint16(P+1))
 	v.Assert(err != nil, "C02/past-the-end-is-an-error")
 	if P == 0 {
+		// "does not fit" must be true (see ByteWalk): with room for the page
+		// without rows plus both browse entries plus any one row and 4 bytes
+		// to spare, index 0 renders
+		if len(rows) > 0 && !anyEmpty {
+			base0 := len(expected(c, rows, 0, -1, false, false))
+			roomy := true
+			for i := range rows {
+				roomy = v.And(roomy, uint64(len(rows[i]))+uint64(base0)+4 <= uint64(c.Size))
+			}
+			v.Assert(!roomy, "C02/sufficient-size-renders")
+		}
 		v.Cover("C02/does-not-fit")
 		return
 	}
@@ -275,6 +286,9 @@ func ByteWalk(v *vrt.Ctx) {
 	c.Menu = [][2]string{{"0", "x"}}
 	c.Browse = 2
 	c.NextSel, c.NextTtl, c.PrevSel, c.PrevTtl = "1", "n", "2", "p"
+	if v.Param("resolved") == 1 {
+		c.Resolved = "onward" // what the resource resolves the label "n" to
+	}
 	rows := c.Rows
 	base := len(expected(c, rows, 0, -1, false, false))
 	big := false
@@ -298,6 +312,15 @@ func ByteWalk(v *vrt.Ctx) {
 	v.Assert(P >= 0, "C02/more-pages-than-rows")
 	v.Observe("pages", P)
 	if P == 0 {
+		// "does not fit" is an answer only when it is true: an output size
+		// that holds the template, the menu, both browse entries and any one
+		// row with 4 bytes to spare (the margin of finding F12) can be
+		// paginated, so index 0 renders
+		roomy := len(rows[0])+base+4 <= int(c.Size)
+		for i := 1; i < len(rows); i++ {
+			roomy = v.And(roomy, len(rows[i])+base+4 <= int(c.Size))
+		}
+		v.Assert(!roomy, "C02/bytes-sufficient-size-renders")
 		v.Cover("C02/bytes-does-not-fit")
 		return
 	}
